@@ -173,6 +173,13 @@ def mutants(design, classes=None):
                             d2 = replace_conn(design, mname, di, ci, ("nc", "REFD", None))
                             d2 = replace_conn(d2, mname, dj, cj, ("pref", d[1], pn))
                             out.append(("noconn_referenced", f"{mname}.{d[1]}.{pn}<-{dj_[1]}.{qn}", d2, {"noconn_referenced"}))
+                            # ... and referenced only inside a compound expression: a one-part concatenation, a full-range slice
+                            if pi[pn][0] == "sig":
+                                w = pi[pn][1]
+                                for tag, wrapped in (("cat", ("cat", [("pref", d[1], pn)])), ("rng", ("rng", ("pref", d[1], pn), 0, w, None))):
+                                    d3 = replace_conn(design, mname, di, ci, ("nc", "REFD", None))
+                                    d3 = replace_conn(d3, mname, dj, cj, wrapped)
+                                    out.append(("noconn_referenced", f"{mname}.{d[1]}.{pn}<-{dj_[1]}.{qn}/{tag}", d3, {"noconn_referenced"}))
                             done = True
                             break
                     if done:
